@@ -71,10 +71,10 @@ class TcpServer(object):
                     keepalive=self.__keepalive,
                 )
                 self.__onNewConnectionCallback(conn)
-            except socket.error as e:
-                if e.errno not in (socket.errno.EAGAIN, socket.errno.EWOULDBLOCK):
-                    self.unbind()
-                    return
+            except socket.error:
+                # accept() failing for ONE connection (ECONNABORTED: the peer gave up before we accepted; EMFILE; ...)
+                # is no reason to stop listening: nobody would bind the server again.
+                pass
 
         if event & POLL_EVENT_TYPE.ERROR:
             self.unbind()
